@@ -280,6 +280,19 @@ def run(ctx: Ctx) -> int:
     ok = not comp_cmp and len([c for c in calls_in(inl) if call_leaf(c) == "startswith"]) >= 2
     ctx.oblige("C16.b", ok, comp_cmp[0] if comp_cmp else inl, "is_nested_instantiation_link compares keys with the class argument's dest by separator-terminated prefix" if ok else f"`{ast.unparse(comp_cmp[0])[:60] if comp_cmp else 'prefix tests'}` compares ONE component of a key with the dest: for a class argument with a dotted dest (`grp.model`) the link is no longer classified as nested, is never applied and the nested target is built with its default", fn=inl, construct="nested link by prefix")
 
+    gnl = ctx.func("_link_arguments:ActionLink.get_nested_links")
+    from .util import nested_defs as _nd16
+
+    tpk = _nd16(gnl).get("trim_param_keys")
+    ctx.need(tpk, "get_nested_links.trim_param_keys")
+    trims = [s_ for s_ in walk_local(tpk) if isinstance(s_, ast.Assign) and isinstance(s_.targets[0], ast.Subscript) and const_str(s_.targets[0].slice) in ("source", "target")]
+    ctx.need(len(trims) == 2, "trim_param_keys: params['source'] = ...; params['target'] = ...")
+    for s_ in trims:
+        which = const_str(s_.targets[0].slice)
+        slices = [x for x in ast.walk(s_.value) if isinstance(x, ast.Subscript) and isinstance(x.slice, ast.Slice) and x.slice.lower is not None]
+        ok = bool(slices) and all(isinstance(x.slice.lower, ast.Call) and call_leaf(x.slice.lower) == "len" and "dest" in ast.unparse(x.slice.lower) for x in slices) and not [c for c in calls_in(s_) if (call_leaf(c) or "").startswith("split_key")]
+        ctx.oblige("C16.b", ok, s_, f"the {which} keys of a nested link lose exactly the class argument's dest prefix" if ok else f"the {which} keys of a nested link are cut at a key separator instead of after the class argument's dest: for a class argument with a dotted dest (`sys.model`) the re-declared link names `model.encoder.channels` inside the class parser - instantiate_classes raises and the decoder never gets the encoder's value", fn=tpk, construct=f"nested {which} trimmed by dest prefix")
+
     # ---------------- C16.f ---------------------------------------------------
     # links between init args of one nested class are re-declared on the per-class parser (get_class_parser),
     # whatever else that parser needs: without them the nested components are built in declaration order
